@@ -521,6 +521,19 @@ def run(cx, rep):
                             tv = next((y.get("v") for y in walk(F.hir[rv["def"]]["body"]) if y["k"] == "Lit" and y.get("lit") == "str"), None)
                         if tv:
                             lits.append((list(tv), a))
+                # .. or a table asked inside an arm's body: `_ => { if TABLE.contains(&ch) { out.push('\\') } out.push(ch) }`
+                # with TABLE a constant array of characters or a string (benign b109)
+                for y in walk(n):
+                    if y["k"] == "MethodCall" and y["method"] == "contains" and y.get("args"):
+                        rv = y["recv"]
+                        while rv.get("k") in ("AddrOf", "DropTemps", "Deref"):
+                            rv = rv["e"]
+                        body_ = F.hir[rv["def"]]["body"] if rv["k"] == "Path" and rv.get("res") == "def" and rv.get("def") in F.hir else rv
+                        cs_ = [z.get("v") for z in walk(body_) if z["k"] == "Lit" and z.get("lit") == "char"]
+                        if not cs_:
+                            cs_ = [ch_ for z in walk(body_) if z["k"] == "Lit" and z.get("lit") == "str" for ch_ in (z.get("v") or "")]
+                        if cs_ and not any((cs_, a_) in lits for a_ in n["arms"]):
+                            lits.append((cs_, None))
                 pushes_bs = any(x["k"] == "MethodCall" and x["method"] in ("push", "push_str") and x["args"] and x["args"][0]["k"] == "Lit" and x["args"][0].get("v") in ("\\",) for x in walk(t["body"]))
                 if lits and pushes_bs:
                     single = sorted({c_ for cs_, _ in lits for c_ in cs_})
